@@ -26,7 +26,10 @@ def run_one(m, suite=False, src='/repo'):
             fp = os.path.join(root, e['file'])
             src = open(fp).read()
             n = src.count(e['find'])
-            if n != e.get('count', 1):
+            if e.get('all'):
+                if n < 1:
+                    return m['id'], 'BROKEN-MUTANT', 'pattern occurs 0 times in %s' % e['file']
+            elif n != e.get('count', 1):
                 return m['id'], 'BROKEN-MUTANT', 'pattern occurs %d times in %s' % (n, e['file'])
             src = src.replace(e['find'], e['replace'])
             open(fp, 'w').write(src)
